@@ -683,6 +683,74 @@ def job_headers(job, res):
                     want = (schema.version, (we, nid), 0, 468, 0)
                     if got != want or leases or back.get_length() != 0:
                         res.violation("header:mutable-file-roundtrip", case, "re-opened container reads %r leases=%r, expected %r" % (got, leases, want))
+        # ---- the same for immutable containers (v1 record documented as >L32s32sL after the share data)
+        for schema in sorted(immutable_schema.ALL_SCHEMAS, key=lambda s: s.version):
+            for li, (renew, cancel) in enumerate([(SECRETS[0], SECRETS[1]), (SECRETS[2], SECRETS[0])]):
+                res.count("evaluations")
+                res.count("nontrivial")
+                exp = 1700000100 + li
+                case = {"sec": "hdr", "kind": "immutable-lease", "ver": schema.version, "li": li}
+                p = path()
+                sf = ShareFile(p, max_size=5, create=True, schema=schema)
+                sf.write_share_data(0, b"12345")
+                sf.add_lease(LeaseInfo(owner_num=1, renew_secret=renew, cancel_secret=cancel, expiration_time=exp, nodeid=NODEIDS[1]))
+                back = list(ShareFile(p).get_leases())
+                ok = (len(back) == 1 and back[0].is_renew_secret(renew) and back[0].is_cancel_secret(cancel)
+                      and not back[0].is_renew_secret(cancel) and back[0].get_expiration_time() == exp)
+                if not ok:
+                    res.violation("lease:immutable-container-roundtrip", case, "lease written into a v%d immutable container reads back as %r" % (schema.version, back))
+                if schema.version == 1:
+                    record = struct.pack(">L32s32sL", 1, renew, cancel, exp)
+                    with open(p, "rb") as f:
+                        raw = f.read()
+                    if raw[12 + 5:] != record:
+                        res.violation("lease:v1-immutable-record-not-as-documented", case, "lease area of a v1 container holds %r, the documented record is %r" % (raw[17:17 + 48], record[:48]))
+                    p2 = path()
+                    with open(p2, "wb") as f:
+                        f.write(raw[:17] + record)
+                    try:
+                        old = list(ShareFile(p2).get_leases())
+                        ok2 = len(old) == 1 and old[0].is_renew_secret(renew) and old[0].is_cancel_secret(cancel) and old[0].get_expiration_time() == exp
+                    except Exception as e:  # noqa
+                        old, ok2 = repr(e), False
+                    if not ok2:
+                        res.violation("lease:v1-immutable-record-misread", case, "a v1 immutable container holding the documented cleartext record is read as %r" % (old,))
+        # ---- a lease INSIDE a container of each version: written through the container, read back through
+        # a fresh object; version 1 additionally against the documented record (cleartext secrets,
+        # >LL32s32s20s in the first header slot at offset 100) in both directions
+        for schema in sorted(mutable_schema.ALL_SCHEMAS, key=lambda s: s.version):
+            for li, (renew, cancel) in enumerate([(SECRETS[0], SECRETS[1]), (SECRETS[2], SECRETS[0])]):
+                res.count("evaluations")
+                res.count("nontrivial")
+                nid, exp = NODEIDS[1], 1700000000 + li
+                case = {"sec": "hdr", "kind": "mutable-lease", "ver": schema.version, "li": li}
+                p = path()
+                msf = MutableShareFile(p, schema=schema)
+                msf.create(NODEIDS[0], SECRETS[2])
+                msf.add_lease(10 ** 9, LeaseInfo(owner_num=1, renew_secret=renew, cancel_secret=cancel, expiration_time=exp, nodeid=nid))
+                back = list(MutableShareFile(p).get_leases())
+                ok = (len(back) == 1 and back[0].is_renew_secret(renew) and back[0].is_cancel_secret(cancel)
+                      and not back[0].is_renew_secret(cancel) and back[0].get_expiration_time() == exp and back[0].nodeid == nid)
+                if not ok:
+                    res.violation("lease:mutable-container-roundtrip", case, "lease written into a v%d container reads back as %r" % (schema.version, back))
+                record = struct.pack(">LL32s32s20s", 1, exp, renew, cancel, nid)
+                if schema.version == 1:
+                    with open(p, "rb") as f:
+                        raw = f.read()[100:100 + 92]
+                    if raw != record:
+                        res.violation("lease:v1-mutable-record-not-as-documented", case, "first lease slot of a v1 container holds %r, the documented record is %r" % (raw[:48], record[:48]))
+                    # the other direction: a container as an older server wrote it
+                    p2 = path()
+                    h1 = schema.header(NODEIDS[0], SECRETS[2])
+                    with open(p2, "wb") as f:
+                        f.write(h1[:100] + record + h1[192:])
+                    try:
+                        old = list(MutableShareFile(p2).get_leases())
+                        ok2 = len(old) == 1 and old[0].is_renew_secret(renew) and old[0].is_cancel_secret(cancel) and old[0].get_expiration_time() == exp
+                    except Exception as e:  # noqa
+                        old, ok2 = repr(e), False
+                    if not ok2:
+                        res.violation("lease:v1-mutable-record-misread", case, "a v1 container holding the documented cleartext record is read as %r" % (old,))
         gschema = sorted(mutable_schema.ALL_SCHEMAS, key=lambda s: s.version)[0]
         good = gschema.header(NODEIDS[2], SECRETS[2])
         magics = {s.version: s.header(NODEIDS[2], SECRETS[2])[:32] for s in mutable_schema.ALL_SCHEMAS}
